@@ -309,7 +309,7 @@ class Gen:
                     self.num(d - 1) if self.r.random() < 0.6 else None, self.alias()]
         if r < 0.93:
             return ["cast", self.num(d - 1), self.r.choice(["SIGNED", "varchar(10)"]), self.alias()]
-        return ["not", self.num(d - 1), self.alias()] if self.r.random() < 0.15 else self.num_leaf()
+        return self.num_leaf()
 
     def operand(self, d):
         """operand of a comparison: numeric expression, or (rarely) a sub-query"""
